@@ -10,7 +10,8 @@ from dalimc.spec import iec62386_tables as T
 
 EVENT_SCHEMES = ["device", "device_instance", "device_group", "instance", "instance_group"]
 EVENT_CLASSES = [("device.pushbutton", n, 1, code) for code, n in sorted(R.PUSHBUTTON.items())] + \
-    [("device.occupancy", "OccupancyEvent", 3, None), ("device.light", "LightEvent", 4, None)]
+    [("device.occupancy", "OccupancyEvent", 3, None), ("device.light", "LightEvent", 4, None)] + \
+    [("device.general", "UnknownEvent", t, None) for t in (0, 2, 5, 31)]      # instance types without an implementing class
 GENERIC = {("gear.general", "UnknownGearCommand"), ("device.general", "UnknownDeviceCommand"),
            ("device.general", "UnknownEvent"), ("device.general", "AmbiguousInstanceType"),
            ("gear.general", "DAPC")}
@@ -125,12 +126,14 @@ def event_field_space(scheme, tier):
 def event_data_space(name, tier):
     if name == "OccupancyEvent":
         return list(range(16))
+    if name == "UnknownEvent":
+        return [0, 1, 2, 15, 16, 512, 1023] if tier == "quick" else list(range(0, 1024, 7)) + [1023]
     if name == "LightEvent":
         return list(range(1024)) if tier == "thorough" else sorted(set(list(range(0, 1024, 37)) + [1, 2, 255, 256, 511, 512, 1022, 1023]))
     return [None]
 
 
-def construct_event(mod, name, fields, data, form="int"):
+def construct_event(mod, name, fields, data, form="int", itype=None):
     cls = lib_class(mod, name)
     kw = {}
     if fields.get("short") is not None:
@@ -151,8 +154,10 @@ def construct_event(mod, name, fields, data, form="int"):
                                        sensor_type="movement" if data & 8 else "presence")
         else:
             kw["data"] = data
-    elif name == "LightEvent":
+    elif name in ("LightEvent", "UnknownEvent"):
         kw["data"] = data
+    if name == "UnknownEvent":
+        kw["instance_type"] = itype
     return cls(**kw)
 
 
